@@ -5,6 +5,7 @@ import (
 	"math"
 	"math/big"
 	"reflect"
+	"strings"
 
 	"github.com/gobuffalo/plush/v5"
 	"github.com/gobuffalo/plush/v5/helpers/iterators"
@@ -382,6 +383,66 @@ func init() {
 						e.AddCase("c19g", fmt.Sprintf("c19g-%d-%d-%d", n, ln, variant), fmt.Sprintf("(%s, %s, %s)", cqZ(int64(n)), cqNat(ln), term), map[string]interface{}{"n": n, "len": ln, "variant": variant, "groups": gs, "error": isErr})
 					}
 				}
+			}
+		}
+		// the groups are a partition of the sequence groupBy was GIVEN: a caller that goes on appending to
+		// (or overwriting) its slice, handed over by pointer, while the groups are consumed changes nothing
+		for ln := 1; ln <= 12; ln++ {
+			for n := 1; n <= 5; n++ {
+				for name, f := range map[string]func(int, interface{}) (iterators.Iterator, error){"iterators.GroupBy": iterators.GroupBy, "plush.GroupByHelper": func(n int, u interface{}) (iterators.Iterator, error) { return plush.GroupByHelper(n, u) }} {
+					mk := func() []int {
+						xs := make([]int, ln, ln+1)
+						for i := range xs {
+							xs[i] = i + 1
+						}
+						return xs
+					}
+					collect := func(it iterators.Iterator, between func()) string {
+						var sb strings.Builder
+						for k := 0; k < ln+8; k++ {
+							g := it.Next()
+							if g == nil {
+								break
+							}
+							sb.WriteString(fmt.Sprint(g))
+							between()
+						}
+						return sb.String()
+					}
+					ref := mk()
+					it0, err0 := f(n, ref)
+					xs := mk()
+					it1, err1 := f(n, &xs)
+					e.rep.Evaluations++
+					e.Count("groupBy-growing")
+					if err0 != nil || err1 != nil {
+						e.Violate("c19-groupby", fmt.Sprintf("%s(%d, slice of %d): error %v / %v", name, n, ln, err0, err1), map[string]int{"n": n, "len": ln})
+						continue
+					}
+					want := collect(it0, func() {})
+					got := collect(it1, func() { xs = append(xs, 99) })
+					if got != want {
+						e.Violate("c19-groupby", fmt.Sprintf("%s(%d, pointer to a slice of %d) while the caller appends to its slice: groups %s, the partition of the given sequence is %s", name, n, ln, got, want), map[string]int{"n": n, "len": ln})
+					}
+				}
+			}
+		}
+		{
+			zs := []string{"a", "b", "c", "d", "e", "f"}
+			grown := false
+			extra := map[string]interface{}{"items": &zs, "more": func() string {
+				if !grown {
+					grown = true
+					zs = append(zs, "x", "y")
+				}
+				return ""
+			}}
+			tm := "<%= for (g) in groupBy(3, items) { %>[<%= for (x) in g { %><%= x %><% } %>]<%= more() %><% } %>"
+			o := runRenderExtra(RCase{Tmpl: tm}, extra)
+			e.rep.Evaluations++
+			e.Count("groupBy-growing")
+			if o.Class != "OK" || o.Out != "[ab][cd][ef]" {
+				e.Violate("c19-groupby", fmt.Sprintf("%s with items = pointer to [a..f], more() appending to it: rendered %q (%s %s), want %q", tm, o.Out, o.Class, firstLine(o.Msg), "[ab][cd][ef]"), map[string]interface{}{"tmpl": tm, "observed": o})
 			}
 		}
 		// a nil slice (by value, or behind a pointer) is an empty sequence: no groups, no error
